@@ -529,6 +529,19 @@ class Gen:
                     body += ["    for (int i = 0; i < 3; i = i + 1) {", "        return %d;" % val, "    }", "    return 0;"]
                 out.append("function %s() -> int {\n%s\n}" % (fn, "\n".join(body)))
                 self.drops[name] = (fn, sig, args, val)
+        # factory functions: the new object reaches its variable through the interpreter's return slot
+        self.makes = {}
+        for name in self.m.order:
+            if self.r.random() < 0.4:
+                sig = self.r.choice(list(self.m.classes[name]["ctors"].keys()))
+                args = [self.r.randint(1, 9)] if sig else []
+                fn = "make%s" % name
+                if self.r.random() < 0.5:
+                    body = "    return new %s(%s);" % (name, ", ".join(map(str, args)))
+                else:
+                    body = "    %s fresh = new %s(%s);\n    return fresh;" % (name, name, ", ".join(map(str, args)))
+                out.append("function %s() -> %s {\n%s\n}" % (fn, name, body))
+                self.makes[name] = (fn, sig, args)
         return out
 
     # ---- main
@@ -576,6 +589,9 @@ class Gen:
             if (k < 0.25 or not live) and allocs < 14:
                 static = r.choice(m.order)
                 dyn, sig, args, src = new_expr(static)
+                if dyn in self.makes and r.random() < 0.5:
+                    fn, sig, args = self.makes[dyn]
+                    src = "%s()" % fn
                 v = self.fresh("o")
                 emit(depth, "%s %s = %s;" % (static, v, src))
                 obj = m.construct(dyn, sig, args, out)
